@@ -39,6 +39,8 @@ RULE = (
     "non-root non-leaf class whose expected result is non-empty; distinct = canonical JSON of the case"
 )
 ASSUMPTIONS = [
+    "under populate_existing combined with selectin polymorphic loading (option or mapper polymorphic_load='selectin') loadedness is not asserted, only values after access "
+    "(the secondary SELECT re-populates from a partial row and expires the deeper attributes)",
     "only SQLite (in-memory, pysqlite) executes the statements; SQL shape on other dialects is not exercised",
     "rows are well-formed: every discriminator value names a mapped non-abstract class, every joined/mixed row has its sub-table rows, primary keys are unique across the whole hierarchy (also across concrete tables)",
     "column names are unique along a root-to-class path; the same name may recur only on classes that are not ancestor/descendant of each other (single-table siblings share the column via use_existing_column as documented)",
@@ -147,6 +149,11 @@ def _check_obj(o, row, b, q, eager, where, exprx):
     must = _must_be_loaded(cfg, sh, q, c, eager)
     unloaded = set(insp.unloaded)
     bad = sorted(n for n in names if decl[n] in must and n in unloaded)
+    if eager.get("pe") and (eager.get("sip") or any(k["load"] == "selectin" for k in cfg["classes"])):
+        # under populate_existing the secondary SELECT of a selectin-polymorphic load re-populates the object from a row
+        # that covers only part of its class path and expires the rest; loadedness is not documented for that combination
+        # (values are still compared after access below)
+        bad = []
     if bad:
         raise Violation(
             f"C42/{cfg['kind']}/{eager.get('tag', 'default')}/not-loaded",
@@ -256,6 +263,7 @@ def _run_variant(b, eng, rows, nrefs, q, v):
     pe = mode != "normal"
     if pe:
         where += f" [{mode}]"
+        eager["pe"] = True
     with Session(eng) as s:
         keep = []
         if mode == "pe_loaded":
@@ -348,7 +356,7 @@ def _run_variant(b, eng, rows, nrefs, q, v):
                 if pk in exp_ids:
                     if o is None:
                         raise Violation(f"C42/{cfg['kind']}/get/missing", f"{w} returned None", expected=f"C{exp_ids[pk]['cls']}")
-                    _check_obj(o, exp_ids[pk], b, q, {"mapper": True, "tag": "get"}, w, exprx)
+                    _check_obj(o, exp_ids[pk], b, q, {"mapper": True, "tag": "get", "pe": pe}, w, exprx)
                 elif o is not None:
                     raise Violation(f"C42/{cfg['kind']}/get/foreign-row", f"{w} returned {type(o).__name__} for a row that is not a C{q}", observed=type(o).__name__, expected=None)
         else:
